@@ -16,7 +16,7 @@
        cancelled from outside), timers fire in deadline order.
    Time is in units of 1/16 s.  Frames/messages are abstract (kind + close code); the frame codec is C11/C12's.
 
-   Ghost fields (no influence on behaviour): peer_closes, cw_leak, code_defect. *)
+   Ghost fields (no influence on behaviour): peer_closes, code_defect (cw_leak is never set any more). *)
 From Coq Require Import List NArith Bool Arith.
 Import ListNotations.
 From AV Require Import Generated.WsSessionGen.
@@ -276,7 +276,15 @@ Fixpoint close_read_loop (c : config) (buf : list msg) (s : state) (t : nat) (k 
 (* resumed after the waiter completed normally: `return self._read_from_buffer()` and on with the loop *)
 Definition close_read_resume (c : config) (s : state) (t : nat) (k : kont) (d : N) : state :=
   match q_buf s with
-  | [] => close_exc c s t k
+  | [] =>
+    (* EofStream.  Client: woken without a message although the queue is not at EOF and a close code is stored —
+       a receive() of another task took the peer's close frame: return normally. *)
+    match c_side c with
+    | Client => if truthy_code (close_code s) && negb (q_eof s)
+                then close_ret (close_transport c s) t k true
+                else close_exc c s t k
+    | Server => close_exc c s t k
+    end
   | _ => close_read_loop c (q_buf s) s t k d
   end.
 
@@ -336,8 +344,16 @@ Definition recv_handle (c : config) (s : state) (t : nat) (r : rres) : lres :=
     Stop (finish (match c_side c with Client => set_close_code s (Some ws_close_abnormal) | Server => s end) t XTimeout)
   | RRCancelled =>
     Stop (finish (match c_side c with Client => set_close_code s (Some ws_close_abnormal) | Server => s end) t XCancelled)
-  | RREof => Stop (close_entry c (set_close_code s (Some ws_close_ok)) t (KRecv MClosed true) ws_close_ok)
-  | RRExc code => Stop (close_entry c (set_close_code s (Some code)) t (KRecv MError true) code)
+  | RREof =>
+    (* `if not self._closed: self._close_code = OK` — a close() of another task owns the code otherwise *)
+    let s := if closed s then s else set_close_code s (Some ws_close_ok) in
+    Stop (close_entry c s t (KRecv MClosed true) ws_close_ok)
+  | RRExc code =>
+    let s := match c_side c with
+             | Server => if closed s then s else set_close_code s (Some code)
+             | Client => set_close_code s (Some ws_close_abnormal)   (* the frame carries exc.code, the report is 1006 *)
+             end in
+    Stop (close_entry c s t (KRecv MError true) code)
   | RRMsg m =>
     match m with
     | MClose code =>
@@ -346,7 +362,7 @@ Definition recv_handle (c : config) (s : state) (t : nat) (r : rres) : lres :=
       else Stop (finish s t (RMsg m))
     | MClosing =>
       let s := match c_side c with
-               | Server => set_code_defect (set_close_code (mark_closing s) (Some ws_close_ok)) true
+               | Server => if closed s then s else set_close_code (mark_closing s) (Some ws_close_ok)
                | Client => mark_closing s
                end in
       Stop (finish s t (RMsg m))
@@ -436,7 +452,8 @@ Definition run_wake (c : config) (s : state) (t : nat) : state :=
     | None => s
     | Some _ =>
       if was_cancelled k then
-        finish (match c_side c with Server => set_cw_leak s true | Client => s end) t XCancelled
+        (* server: `except CancelledError: self._set_code_close_transport(1006); raise`; client: not closed yet *)
+        finish (match c_side c with Server => abnormal c s | Client => s end) t XCancelled
       else match c_side c with
            | Server => server_close_tail c s t kk
            | Client => client_close_body c s t kk code
